@@ -140,7 +140,13 @@ def _asgi_scenario(job, V):
         j = i if i < disc else i - 1  # message index (a disconnect call consumed one slot)
         if j < nmsg:
             log["delivered"].append(j)
-            return {"type": "http.request", "body": wire[j], "more_body": j < nmsg - 1}
+            msg = {"type": "http.request", "body": wire[j], "more_body": j < nmsg - 1}
+            if job.get("omit_optional_keys"):  # ASGI: "body" defaults to b"", "more_body" to False -- servers may leave them out
+                if msg["body"] == b"":
+                    del msg["body"]
+                if not msg["more_body"]:
+                    del msg["more_body"]
+            return msg
         log["delivered"].append("past-end")
         await asyncio.get_running_loop().create_future()  # a real server blocks here
 
@@ -417,7 +423,7 @@ def job_asgi(job) -> report.JobResult:
         cV = None
         if V is not None:
             cV = dict(V, d=[m.eval(x.e, True).as_long() for x in d], w=[m.eval(x.e, True).as_long() for x in w])
-        wit = {"program": job["prog"], "messages": V and V["nmsg"], "empty": V and V["empty"], "disconnect_at_receive": V and V["disc"],
+        wit = {"omit_optional_keys": bool(job.get("omit_optional_keys")), "program": job["prog"], "messages": V and V["nmsg"], "empty": V and V["empty"], "disconnect_at_receive": V and V["disc"],
                "delays": cV and cV["d"], "task_offsets": cV and cV["w"], "tasks": tasks}
         if kind == "exc":
             if isinstance(v, Fail):
@@ -614,6 +620,8 @@ def jobs(tier: str):
         out.append(job)
         if prog == "concurrent-body" and b["concurrent_tasks_max"] >= 3:
             out.append(dict(job, name=f"asgi/{prog}/3tasks", tasks=3, weight=1000))
+    for prog in ("body2+stream", "stream+body", "concurrent-body", "close+body"):
+        out.append(dict(name=f"asgi/{prog}/optional-message-keys-omitted", kind="asgi", prog=prog, payload=PAYLOAD[prog], tasks=2, omit_optional_keys=True, weight=100))
     for prog in W_PROGRAMS:
         out.append(dict(name=f"wsgi/{prog}", kind="wsgi", prog=prog))
     out.append(dict(name="twin/asgi", kind="asgi", prog="body2+stream", payload="raw", tasks=2, twin=True))
@@ -634,7 +642,7 @@ def replay(rec) -> int:
         except Fail as f:
             cp = f"{f.klass}: {f.detail}"
     else:
-        job = dict(prog=w["program"], payload=PAYLOAD[w["program"]], tasks=w.get("tasks", 2))
+        job = dict(prog=w["program"], payload=PAYLOAD[w["program"]], tasks=w.get("tasks", 2), omit_optional_keys=w.get("omit_optional_keys", False))
         cV = {"nmsg": w["messages"], "empty": w["empty"], "disc": w["disconnect_at_receive"], "d": w["delays"], "w": w["task_offsets"], "tasks": w.get("tasks", 2)}
         cp = concrete_asgi(job, cV)
     print(f"replay C10: {w} -> {cp}")
